@@ -29,42 +29,68 @@ def validateForwardItems (m : Model) (cd : Item Vals) : Option BErr :=
   (firstErr (vErr m .ivData) cd.ivData).or <|
   (firstErr (vErr m .ivAnalysis) cd.ivAnalysis)
 
-/-- `Bundle.ValidateReturnItems` (as written: the image view DETAIL list is validated three times,
-data and analysis records are not) -/
+/-- `Bundle.ValidateReturnItems` -/
 def validateReturnItems (m : Model) (rd : Item Vals) : Option BErr :=
   (firstErr (vErr m .rdAddA) rd.addA).or <|
   (firstErr (vErr m .rdAddB) rd.addB).or <|
   (firstErr (vErr m .rdAddC) rd.addC).or <|
   (firstErr (vErr m .rdAddD) rd.addD).or <|
-  (firstErr (vErr m .ivDetail) rd.ivDetail)
+  (firstErr (vErr m .ivDetail) rd.ivDetail).or <|
+  (firstErr (vErr m .ivData) rd.ivData).or <|
+  (firstErr (vErr m .ivAnalysis) rd.ivAnalysis)
+
+/-- item record first, then its addenda and image views -/
+def validateCheck (m : Model) (cd : Item Vals) : Option BErr :=
+  (vErr m .checkDetail cd.detail).or (validateForwardItems m cd)
+
+def validateReturn (m : Model) (rd : Item Vals) : Option BErr :=
+  (vErr m .returnDetail rd.detail).or (validateReturnItems m rd)
 
 def sumInt (l : List Int) : Int := l.foldl (· + ·) 0
 
-/-- `Bundle.build()`: a fresh control record with the recounted totals -/
+/-- the control record `Bundle.build()` creates: recounted totals, caller-settable members kept -/
+def bundleControlOf (m : Model) (b : Bundle Vals) : Vals :=
+  let items := b.checks ++ b.returns
+  let amount := sumInt (items.map (fun i => i.detail.i "ItemAmount"))
+  let micr := sumInt (b.checks.map (fun i => if i.detail.i "MICRValidIndicator" == 1 then i.detail.i "ItemAmount" else 0))
+  let images := sumInt (items.map (fun i => (i.ivDetail.length : Int)))
+  let b0 := (m.layout .bundleControl).new m.now
+  let b1 := b0.setI "BundleItemsCount" items.length
+  let b2 := b1.setI "BundleTotalAmount" amount
+  let b3 := b2.setI "MICRValidTotalAmount" micr
+  let b4 := b3.setI "BundleImagesCount" images
+  let b5 := b4.setI "CreditTotalIndicator" 0
+  match b.control with
+  | some old => (b5.setS "ID" (old.s "ID")).setS "UserField" (old.s "UserField")
+  | none => b5
+
+/-- `Bundle.build()`: validate header, items and the new control; replace the control -/
 def bundleBuild (m : Model) (b : Bundle Vals) : Except BErr (Bundle Vals) :=
   match (match b.header with | some h => vErr m .bundleHeader h | none => none) with
   | some e => .error e
   | none =>
     if b.checks.isEmpty && b.returns.isEmpty then .error (.bundle, "entries")
     else
-      match (firstErr (validateForwardItems m) b.checks).or (firstErr (validateReturnItems m) b.returns) with
+      match (firstErr (validateCheck m) b.checks).or (firstErr (validateReturn m) b.returns) with
       | some e => .error e
       | none =>
-        let items := b.checks ++ b.returns
-        let amount := sumInt (items.map (fun i => i.detail.i "ItemAmount"))
-        let micr := sumInt (b.checks.map (fun i => if i.detail.i "MICRValidIndicator" == 1 then i.detail.i "ItemAmount" else 0))
-        let images := sumInt (items.map (fun i => (i.ivDetail.length : Int)))
-        let b0 := (m.layout .bundleControl).new m.now
-        let b1 := b0.setI "BundleItemsCount" items.length
-        let b2 := b1.setI "BundleTotalAmount" amount
-        let b3 := b2.setI "MICRValidTotalAmount" micr
-        let b4 := b3.setI "BundleImagesCount" images
-        let b5 := b4.setI "CreditTotalIndicator" 0
-        -- the caller-settable members of the old control record are kept
-        let bc := match b.control with
-          | some old => (b5.setS "ID" (old.s "ID")).setS "UserField" (old.s "UserField")
-          | none => b5
-        .ok { b with control := some bc }
+        match vErr m .bundleControl (bundleControlOf m b) with
+        | some e => .error e
+        | none => .ok { b with control := some (bundleControlOf m b) }
+
+/-- what a successful `Bundle.build()` returns -/
+theorem bundleBuild_ok (m : Model) (b b' : Bundle Vals) (h : bundleBuild m b = .ok b') :
+    b' = { b with control := some (bundleControlOf m b) } := by
+  unfold bundleBuild at h
+  split at h
+  · cases h
+  · split at h
+    · cases h
+    · split at h
+      · cases h
+      · split at h
+        · cases h
+        · simp only [Except.ok.injEq] at h; exact h.symm
 
 /-- record numbers 1..limit, wrapping back to 1 -/
 def recNums (limit : Nat) (n : Nat) : List Int :=
@@ -184,7 +210,11 @@ def fileBundles (m : Model) : List (Bundle Vals) → Except BErr (List (Bundle V
 def fileCashLetters (m : Model) : List (CashLetter Vals) → Except BErr (List (CashLetter Vals))
   | [] => .ok []
   | cl :: r =>
-    match cashLetterValidate m cl with
+    match (cashLetterValidate m cl).or <|
+        ((match cl.header with | some h => vErr m .cashLetterHeader h | none => none).or <|
+         (firstErr (vErr m .creditItem) cl.creditItems).or <|
+         (firstErr (vErr m .credit) cl.credits).or <|
+         (firstErr (fun r => match r with | some v => vErr m .rns v | none => some (.file, "RoutingNumberSummary")) cl.rns)) with
     | some e => .error e
     | none =>
       match fileBundles m cl.bundles with
@@ -193,6 +223,20 @@ def fileCashLetters (m : Model) : List (CashLetter Vals) → Except BErr (List (
         match fileCashLetters m r with
         | .error e => .error e
         | .ok rs => .ok ({ cl with bundles := bs } :: rs)
+
+/-- the control record `File.Create()` creates from the (re)built cash letters -/
+def fileControlOf (m : Model) (f : File Vals) (cls : List (CashLetter Vals)) : Vals :=
+  let items := cls.flatMap (fun cl => cl.bundles.flatMap (fun b => b.checks ++ b.returns))
+  let credit : Int := if cls.any (fun cl => !cl.creditItems.isEmpty) then 1 else 0
+  let total : Nat := 2 + (cls.map clRecordCount).sum
+  let fc0 := (m.layout .fileControl).new m.now
+  let fc1 := fc0.setI "CashLetterCount" cls.length
+  let fc2 := fc1.setI "TotalRecordCount" (total : Int)
+  let fc3 := fc2.setI "TotalItemCount" items.length
+  let fc4 := fc3.setI "FileTotalAmount" (sumInt (items.map (fun i => i.detail.i "ItemAmount")))
+  let fc5 := fc4.setS "ImmediateOriginContactName" (f.control.s "ImmediateOriginContactName")
+  let fc6 := fc5.setS "ImmediateOriginContactPhoneNumber" (f.control.s "ImmediateOriginContactPhoneNumber")
+  (fc6.setI "CreditTotalIndicator" credit).setS "ID" (f.control.s "ID")
 
 /-- `File.Create()` -/
 def fileCreate (m : Model) (f : File Vals) : Except BErr (File Vals) :=
@@ -204,18 +248,29 @@ def fileCreate (m : Model) (f : File Vals) : Except BErr (File Vals) :=
       match fileCashLetters m f.cashLetters with
       | .error e => .error e
       | .ok cls =>
-        let items := cls.flatMap (fun cl => cl.bundles.flatMap (fun b => b.checks ++ b.returns))
-        let credit : Int := if cls.any (fun cl => !cl.creditItems.isEmpty) then 1 else 0
-        let total : Nat := 2 + (cls.map clRecordCount).sum
-        let fc0 := (m.layout .fileControl).new m.now
-        let fc1 := fc0.setI "CashLetterCount" cls.length
-        let fc2 := fc1.setI "TotalRecordCount" (total : Int)
-        let fc3 := fc2.setI "TotalItemCount" items.length
-        let fc4 := fc3.setI "FileTotalAmount" (sumInt (items.map (fun i => i.detail.i "ItemAmount")))
-        let fc5 := fc4.setS "ImmediateOriginContactName" (f.control.s "ImmediateOriginContactName")
-        let fc6 := fc5.setS "ImmediateOriginContactPhoneNumber" (f.control.s "ImmediateOriginContactPhoneNumber")
-        let fc := (fc6.setI "CreditTotalIndicator" credit).setS "ID" (f.control.s "ID")
-        .ok { f with cashLetters := cls, control := fc }
+        if !m.accepts "isAlphanumericSpecial" (f.control.s "ImmediateOriginContactName") then
+          .error (.field, "ImmediateOriginContactName")
+        else if !m.accepts "isNumeric" (f.control.s "ImmediateOriginContactPhoneNumber") then
+          .error (.field, "ImmediateOriginContactPhoneNumber")
+        else .ok { f with cashLetters := cls, control := fileControlOf m f cls }
+
+/-- what a successful `File.Create()` returns -/
+theorem fileCreate_ok (m : Model) (f f' : File Vals) (h : fileCreate m f = .ok f') :
+    ∃ cls, fileCashLetters m f.cashLetters = .ok cls ∧ f' = { f with cashLetters := cls, control := fileControlOf m f cls } := by
+  unfold fileCreate at h
+  split at h
+  · cases h
+  · split at h
+    · cases h
+    · split at h
+      · cases h
+      · rename_i cls hcls
+        split at h
+        · cases h
+        · split at h
+          · cases h
+          · simp only [Except.ok.injEq] at h
+            exact ⟨cls, hcls, h.symm⟩
 
 /-- what "a file and its cash letters have been built" means: every `CashLetter.Create()`, then `File.Create()` -/
 def buildAll (m : Model) (f : File Vals) : Except BErr (File Vals) :=
